@@ -2,7 +2,7 @@
 # tools/run_module.sh <Cxx> <harness.module> [tier] -- run the obligations of one harness module only (development aid;
 # writes evidence/<Cxx>.json like ./check does, so re-run ./check afterwards)
 cd /verif
-exec env PYTHONPATH="/verif:/repo/src" PYTHONHASHSEED=0 .venv/bin/python -c "
+exec env PYTHONPATH="/verif:${VF_REPO:-/repo}/src" PYTHONHASHSEED=0 .venv/bin/python -c "
 import sys
 from vf.run import run_property
 sys.exit(run_property('$1', ['$2'], '${3:-quick}', 0))"
